@@ -127,3 +127,81 @@ def obligations():
     return [Ob('O7.2-mono-roundtrip-d1', 'mono subst_ty/unify round trip: every composite constructor over leaves', ob_mono_roundtrip, ('quick', 'thorough'), 5, dict(top=allc + leaves, inner=leaves, depth=1)),
             Ob('O7.2-mono-roundtrip-d2', 'mono subst_ty/unify round trip: depth 2', ob_mono_roundtrip, ('quick', 'thorough'), 30, dict(top=allc, inner=allc + ['TParam', 'TInt32'], depth=2, vec_len=(1, 1))),
             Ob('O7.2-mono-roundtrip-d2w', 'mono subst_ty/unify round trip: depth 2, lists of 0..2', ob_mono_roundtrip, ('thorough',), 200, dict(top=allc, inner=allc + ['TParam', 'TInt32'], depth=2, vec_len=(0, 2)))]
+
+# ----------------------------------------------------------------------------- O7.3 no generic type application survives TypeMono::collapse_type_apps
+def has_app(sh, bases):
+    if sh['k'] == 'TApp' and sh['base'].get('name') in bases: return True
+    return ('base' in sh and has_app(sh['base'], bases)) or any(has_app(x, bases) for x in sh.get('a', []))
+
+def replay_residue(tsh):
+    src = 'enum Opt[T] { Non, Som(T) }\nstruct B[X] { v: X }\n'
+    src += 'fn mk() -> %s { mk() }\nfn main() -> unit { let x = mk(); () }\n' % goml_ty(tsh)
+    d = tempfile.mkdtemp(prefix='vf-c07-')
+    try:
+        open(os.path.join(d, 'main.gom'), 'w').write(src)
+        p = subprocess.run([build.compiler_bin(), 'run', '--dump-go', os.path.join(d, 'main.gom')], capture_output=True, text=True, timeout=60)
+    finally: shutil.rmtree(d, ignore_errors=True)
+    txt = p.stdout + p.stderr
+    pan = [l for l in txt.splitlines() if 'panicked' in l or 'generic types not supported' in l]
+    return bool(pan), 'goml program `%s` -> %s' % (src.replace('\n', ' | '), pan[:2] if pan else txt[:200].replace('\n', ' | '))
+
+def ob_collapse(r, tier, seed, top, inner, depth, vec_len=(1, 1)):
+    W = e2.fresh_world(CRATES); tt = W.tt; TY = tt.find_adt(['tast', 'Ty'], 'compiler')
+    ED = tt.find_adt(['env', 'EnumDef'], 'compiler'); SD = tt.find_adt(['env', 'StructDef'], 'compiler'); TI = tt.find_adt(['tast', 'TastIdent'], 'compiler')
+    bases = ('Opt', 'B')
+    r.bounds = 'concrete types of depth <= %d: top constructor in %s, inner in %s, leaves int32 / bool; TApp bases: the generic enum Opt[T] { Non, Som(T) } and the generic struct B[X] { v: X }' % (depth, top, inner)
+    r.assumptions = ['names::ty_compact (external `pretty` crate) replaced by an injective stand-in', 'oracle: collapse_type_apps(t) contains no application of a registered generic enum/struct at any position (the Go backend has no generic types)']
+    def ident(n): return Agg(TI.key, 0, [mkstr(n)])
+    def m_ty_compact(ex, a): return mkstr(json.dumps(shape(ex.deref(a[0]), TY), sort_keys=True).replace(' ', ''))
+    W.stubs['ty_compact'] = m_ty_compact
+    class S2(Spec):
+        def make_adt(s, ex, adt, d, path, subst):
+            if adt.name == 'Ty': s.allowed['Ty'] = top if d == depth else inner
+            return Spec.make_adt(s, ex, adt, d, path, subst)
+    spec = S2(tt, allowed={'Ty': top}, leaves={'Ty': ['TInt32', 'TBool']}, strings=('A',), vec_len=vec_len, int_choices=[2], depth=depth,
+              field_hooks={('Ty', 'TApp', 'ty'): lambda sp, ex, d, p: mkbox(Agg(TY.key, TY.vindex(ex.choose([(True, 'TEnum'), (True, 'TStruct')])), [None])),
+                           ('Ty', 'TApp', 'args'): lambda sp, ex, d, p: PyVec([sp.make_adt(ex, TY, d, p + '[0]', {})])})
+    def fixbase(v):
+        # TApp base placeholder -> Opt for enums, B for structs
+        if isinstance(v, Agg) and v.ty == 'Box': fixbase(unbox(v)); return
+        if isinstance(v, PyVec):
+            for x in v.items: fixbase(x)
+            return
+        if isinstance(v, Agg) and v.ty == TY.key:
+            n = TY.variants[v.idx].name
+            if n in ('TEnum', 'TStruct') and v.fields[0] is None: v.fields[0] = mkstr('Opt' if n == 'TEnum' else 'B')
+            for f in v.fields: fixbase(f)
+    def entry(ex):
+        t = force(ex, spec.root(ex, 'tast::Ty', tag='t')); fixbase(t); tsh = shape(t, TY)
+        genv = ex.call('env::GlobalTypeEnv::new_empty', [])
+        menv = ex.call('mono::GlobalMonoEnv::from_genv', [genv]); h = {0: menv}
+        tparam = lambda n: Agg(TY.key, TY.vindex('TParam'), [mkstr(n)])
+        ex.call('mono::GlobalMonoEnv::insert_enum', [Ref(h, 0), Agg(ED.key, 0, [ident('Opt'), PyVec([ident('T')]), PyVec([Agg('tuple', 0, [ident('Non'), PyVec([])]), Agg('tuple', 0, [ident('Som'), PyVec([tparam('T')])])])])])
+        ex.call('mono::GlobalMonoEnv::insert_struct', [Ref(h, 0), Agg(SD.key, 0, [ident('B'), PyVec([ident('X')]), PyVec([Agg('tuple', 0, [ident('v'), tparam('X')])])])])
+        tm = ex.call('mono::TypeMono::new', [Ref(h, 0)]); h[1] = tm; h[2] = t
+        out = ex.call('mono::TypeMono::collapse_type_apps', [Ref(h, 1), Ref(h, 2)])
+        return tsh, shape(out, TY)
+    res = e2.explore(r, W, entry, [])
+    found = {}
+    for p in res:
+        r.cases += 1
+        if p.kind != 'ok': found.setdefault('panic', ('collapse_type_apps panics: %s' % p.value, None)); continue
+        tsh, osh = p.value
+        if has_app(tsh, bases): r.nontrivial += 1
+        if has_app(osh, bases):
+            js = json.dumps(tsh); where = 'TVec' if '"TVec"' in js else tsh['k']
+            found.setdefault('type-application-residue:' + where, ('collapse_type_apps(%s) still contains a generic type application: %s' % (goml_ty(tsh), json.dumps(osh)[:300]), tsh))
+        elif len(r.samples) < 3 and has_app(tsh, bases): r.samples.append({'type': goml_ty(tsh), 'collapsed': json.dumps(osh)[:200]})
+    for key, (what, w) in found.items():
+        ok_, detail = True, 'value produced by the real TypeMono::collapse_type_apps MIR'
+        if w is not None and key.startswith('type-application-residue'):
+            try: ok_, detail = replay_residue(w)
+            except Exception as e: ok_, detail = False, 'replay failed: %s' % str(e)[:200]
+        r.findings.append(Finding(key, what[:600], {'type': w}, ok_, detail))
+
+_obligations_72 = obligations
+def obligations():
+    comp = ['TTuple', 'TApp', 'TArray', 'TVec', 'TRef', 'TFunc']
+    return _obligations_72() + [
+        Ob('O7.3-collapse-d2', 'no generic type application survives collapse_type_apps: depth 2', ob_collapse, ('quick', 'thorough'), 10, dict(top=comp, inner=['TApp', 'TInt32'], depth=2)),
+        Ob('O7.3-collapse-d3', 'no generic type application survives collapse_type_apps: depth 3', ob_collapse, ('thorough',), 100, dict(top=comp, inner=comp + ['TInt32'], depth=3))]
